@@ -18,8 +18,9 @@ class FakeFlow:
     Registered as the external flow backend "fake" (stubs/verif_fakeflow-0.0.dist-info)."""
     import array_api_compat.numpy as xp
 
-    def __init__(self, dims, mu=0.0, sigma=2.0, seed=0, tag="A", out_xp=None, device=None, data_transform=None, dtype=None, **kw):
+    def __init__(self, dims, mu=0.0, sigma=2.0, seed=0, tag="A", out_xp=None, device=None, data_transform=None, dtype=None, support=None, **kw):
         self.dims = dims
+        self.support = support      # None: density on all of R^d; a number: log-density -inf where some |x_i - mu_i| exceeds it
         self.mu = np.full(dims, float(mu)) if np.ndim(mu) == 0 else np.asarray(mu, float)
         self.sigma = np.full(dims, float(sigma)) if np.ndim(sigma) == 0 else np.asarray(sigma, float)
         self.rng = np.random.default_rng(seed)
@@ -30,7 +31,10 @@ class FakeFlow:
     def _lp(self, x):
         x = np.asarray(nsutil.to_list(x), dtype=float).reshape(-1, self.dims)
         z = (x - self.mu) / self.sigma
-        return -0.5 * np.sum(z * z, axis=1) - np.sum(np.log(self.sigma)) - 0.5 * self.dims * math.log(2 * math.pi)
+        lp = -0.5 * np.sum(z * z, axis=1) - np.sum(np.log(self.sigma)) - 0.5 * self.dims * math.log(2 * math.pi)
+        if self.support is not None:
+            lp = np.where(np.all(np.abs(x - self.mu) <= self.support, axis=1), lp, -np.inf)
+        return lp
 
     def _out(self, a):
         return a if self.out_xp is None else self.out_xp.asarray(a)
